@@ -55,6 +55,11 @@ def gen_req(r, i):
         q["cls"] = r.choice(RENDERABLE)
     if kind == "wait_weak":
         q["wake"] = r.choice([0.01, 0.2, 0.5, 2.0, 5.0])
+    if kind == "raise_generic":
+        q["exc"] = r.choice(["RuntimeError", "KeyError", "IndexError", "ValueError", "LookupError", "AttributeError", "TypeError",
+                             "OSError", "TimeoutError", "AssertionError", "ZeroDivisionError", "UnicodeDecodeError",
+                             "NotImplementedError", "StopAsyncIteration"])
+        q["in_cleanup"] = r.chance(0.2)
     return q
 
 
@@ -87,6 +92,8 @@ def systematic(tier):
         variants = [None]
         if kind == "ret_code":
             variants = RET_CODES
+        if kind == "raise_generic":
+            variants = ["RuntimeError", "KeyError", "LookupError", "AttributeError", "TimeoutError", "OSError", "UnicodeDecodeError"]
         if kind.startswith("raise_renderable"):
             variants = RENDERABLE if (tier == "thorough" or kind == "raise_renderable") else RENDERABLE[::5]
         for v in variants:
@@ -103,6 +110,9 @@ def systematic(tier):
                             q["code"] = v
                         if kind.startswith("raise_renderable"):
                             q["cls"] = v
+                        if kind == "raise_generic":
+                            q["exc"] = v
+                            q["in_cleanup"] = (method == "DELETE")
                         if kind == "wait_weak":
                             q["wake"] = 1.0
                         # a well-behaved neighbour before, during and after
@@ -225,7 +235,22 @@ def execute(sim, scn):
             if k == "raise_renderable_text":
                 raise make_exc(q)
             if k == "raise_generic":
-                raise RuntimeError(SECRET + " in request %d" % rid)
+                # any exception type the application may let escape; several of them are caught somewhere inside the
+                # library for its own purposes (KeyError, LookupError, AttributeError, TimeoutError, OSError ...)
+                exc_cls = {"KeyError": KeyError, "IndexError": IndexError, "ValueError": ValueError, "LookupError": LookupError,
+                           "AttributeError": AttributeError, "TypeError": TypeError, "OSError": OSError,
+                           "TimeoutError": TimeoutError, "AssertionError": AssertionError, "ZeroDivisionError": ZeroDivisionError,
+                           "UnicodeDecodeError": None, "NotImplementedError": NotImplementedError,
+                           "StopAsyncIteration": StopAsyncIteration}.get(q.get("exc"), RuntimeError)
+                if q.get("exc") == "UnicodeDecodeError":
+                    raise UnicodeDecodeError("utf-8", (SECRET + " bytes").encode(), 0, 1, SECRET)
+                if q.get("in_cleanup"):
+                    # an error path of an error path: the handler fails renderably, and its clean-up fails again
+                    try:
+                        raise error.BadRequest("first failure %d" % rid)
+                    finally:
+                        raise exc_cls(SECRET + " in clean-up of request %d" % rid)
+                raise exc_cls(SECRET + " in request %d" % rid)
             if k == "ret_none":
                 return None
             if k == "ret_str":
